@@ -387,7 +387,16 @@ func (m *Module) check(w *engine.World, rc *rec) {
 	if rc.Height == w.Height {
 		age = "at-creation"
 	}
-	res, err := w.Node.K.Record.Record(w.Node.Ctx(), &rectypes.QueryRecordRequest{RecordId: rc.ID})
+	var res *rectypes.QueryRecordResponse
+	var err error
+	if perr := engine.Catch("Record query", func() error {
+		res, err = w.Node.K.Record.Record(w.Node.Ctx(), &rectypes.QueryRecordRequest{RecordId: rc.ID})
+		return nil
+	}); perr != nil {
+		// the stored bytes no longer decode: "nothing can alter or delete it"
+		w.Violate(Prop, "readback/undecodable/"+age, "record %s (op %d, created at height %d) cannot be decoded at height %d: the query aborts: %v", rc.ID, rc.OpID, rc.Height, w.Height, firstLine(perr.Error()))
+		return
+	}
 	if err != nil || res == nil || res.Record == nil {
 		w.Violate(Prop, "readback/query-fails/"+age, "record %s (op %d, created at height %d) cannot be queried at height %d: %v", rc.ID, rc.OpID, rc.Height, w.Height, err)
 		return
@@ -437,4 +446,13 @@ func (m *Module) Final(w *engine.World) {
 	for _, id := range m.order {
 		m.check(w, m.recs[id])
 	}
+}
+
+func firstLine(s string) string {
+	for i := 0; i < len(s); i++ {
+		if s[i] == '\n' {
+			return s[:i]
+		}
+	}
+	return s
 }
